@@ -383,7 +383,7 @@ func runC35(c *Ctx) {
 	}
 	if fn := c.mustFn(pk, "iiss4Reward", "processVoterReward"); fn != nil {
 		nE, nV := 0, 0
-		for _, cs := range c.calls(fn, byCallee("Voter).ApplyEvent")) {
+		for _, cs := range c.callsWithHelpers(fn, byCallee("Voter).ApplyEvent")) {
 			nE++
 			_, a := callArgs(cs.Common())
 			l := linOf(a[1])
@@ -403,7 +403,7 @@ func runC35(c *Ctx) {
 			}
 			c.check(okO, "C35.same-weight", "the offset is the applied event's own", cs.Pos(), "event.Offset()", "offset of another event")
 		}
-		for _, cs := range c.calls(fn, byCallee("Voter).ApplyVoting")) {
+		for _, cs := range c.callsWithHelpers(fn, byCallee("Voter).ApplyVoting")) {
 			nV++
 			_, a := callArgs(cs.Common())
 			c.check(render(a[1]) == "$r.pi.GetTermPeriod()", "C35.same-weight", "initial votes weigh the term period on the voter side", cs.Pos(), render(a[1]), "voter side initial weight is "+render(a[1]))
